@@ -350,6 +350,48 @@ pub fn worker(_args: &[String]) {
     }
 }
 
+/// Instance-count ladder: a stateful library, N further libraries, and a last library that imports
+/// the stateful one - for every N up to the bound, the fillers side by side in one declaration or as
+/// a chain importing one another. However many libraries a program instantiates, each is
+/// instantiated once: the state changed through the program is the state the last library sees.
+pub fn instance_ladder_case(n: usize, chain: bool) -> (Vec<String>, Vec<(String, String)>) {
+    let mut libs: Vec<(String, String)> = vec![("cnt".into(), "(define-library (cnt) (import (scheme base)) (export bump! peek boots) (begin (define n 0) (define boots 0) (set! boots (+ boots 1)) (define (bump!) (set! n (+ n 1)) n) (define (peek) n)))".into())];
+    for k in 1..=n {
+        let imp = if chain && k > 1 { format!("(import (fill{}))", k - 1) } else { String::new() };
+        libs.push((format!("fill{}", k), format!("(define-library (fill{}) {} (export f{}) (begin (define f{} {})))", k, imp, k, k, k)));
+    }
+    libs.push(("late".into(), "(define-library (late) (import (cnt)) (export late-peek late-bump! late-boots) (begin (define (late-peek) (peek)) (define (late-bump!) (bump!)) (define (late-boots) boots)))".into()));
+    let fillers = if chain { if n > 0 { format!("(fill{})", n) } else { String::new() } } else { (1..=n).map(|k| format!("(fill{})", k)).collect::<Vec<_>>().join(" ") };
+    let forms = vec![format!("(import (cnt) {} (late))", fillers), "(bump!)".into(), "(bump!)".into(), "(late-peek)".into(), "(late-bump!)".into(), "(peek)".into(), "(late-boots)".into(), if n > 0 { format!("f{}", n) } else { "boots".into() }];
+    (forms, libs)
+}
+
+pub fn run_instance_ladder_case(n: usize, chain: bool) -> Result<(), (String, String)> {
+    let (forms, libs) = instance_ladder_case(n, chain);
+    let want: Vec<String> = vec!["#<void>|none".into(), "1".into(), "2".into(), "2".into(), "3".into(), "3".into(), "1".into(), if n > 0 { n.to_string() } else { "1".into() }];
+    on_fresh_thread(move || {
+        let mut it = Interp::must_new();
+        for (name, src) in &libs {
+            let lname = LibraryName(vec![ruschm::parser::LibraryNameElement::Identifier(name.clone())]);
+            match crate::drive::guarded(|| LibraryFactory::from_char_stream(&lname, src.chars())) {
+                Ok(Ok(f)) => it.it.register_library_factory(f),
+                other => return Err(("the library definition is accepted".to_string(), format!("{}: {:?}", src, other.map(|r| r.map(|_| "factory").map_err(|e| e.to_string()))))),
+            }
+        }
+        let mut seen = vec![];
+        for (i, f) in forms.iter().enumerate() {
+            let o = it.eval(f);
+            let shown = format!("{}", o);
+            seen.push(format!("{} => {}", f, shown));
+            let ok = if i == 0 { matches!(o, Outcome::Val(_)) } else { shown == want[i] };
+            if !ok {
+                return Err((format!("{} => {}", f, want[i]), seen.join(" ; ")));
+            }
+        }
+        Ok(())
+    })
+}
+
 pub fn run(ctx: &Ctx) -> i32 {
     let depth: usize = std::env::var("C13_DEPTH").ok().and_then(|s| s.parse().ok()).unwrap_or(if ctx.thorough() { 6 } else { 4 });
     let silencer = crate::drive::StdoutSilencer::new();
@@ -375,6 +417,17 @@ pub fn run(ctx: &Ctx) -> i32 {
         }
         acc.merge(ex.acc);
     }
+    let ladder = if ctx.thorough() { 128 } else { 48 };
+    for n in 0..=ladder {
+        for chain in [false, true] {
+            acc.evals += 1;
+            acc.transitions += 8;
+            acc.count("instance-count ladder: stateful library, N fillers, late importer", 1);
+            if let Err((e, o)) = run_instance_ladder_case(n, chain) {
+                acc.mismatch(report::Mismatch { idx: 9_000_000 + (n * 2 + chain as usize) as u64, case: format!("[instance-count ladder: {} filler libraries, {}]", n, if chain { "importing one another" } else { "side by side" }), expected: e, observed: o, payload: json!({"kind": "instance-ladder", "n": n, "chain": chain}) }, None);
+            }
+        }
+    }
     drop(silencer);
     let _ = std::fs::remove_dir_all(format!("/verif/target/scratch/c13-{}", std::process::id()));
     report::finish(
@@ -384,7 +437,7 @@ pub fn run(ctx: &Ctx) -> i32 {
             tier: ctx.tier_name(),
             seed: ctx.seed,
             exhaustive: !capped,
-            rule: format!("for each of {} configurations (import graphs P->L; P->L and P->M->L; P->M->L only; L imported twice through different import sets; M before L; each with the libraries as registered sources and as files): breadth-first search over all histories of {} importer operations (calls of exported procedures, definitions colliding with library internals, redefinition and assignment of imported names) up to the depth bound; states = canonical dumps of the reference module system; every transition compares the operation and {} probes (internals must be unbound, the library must not see the importer's g, one shared instance)", configs().len(), OPS.len(), PROBES.len()),
+            rule: format!("for each of {} configurations (import graphs P->L; P->L and P->M->L; P->M->L only; L imported twice through different import sets; M before L; each with the libraries as registered sources and as files): breadth-first search over all histories of {} importer operations (calls of exported procedures, definitions colliding with library internals, redefinition and assignment of imported names) up to the depth bound; states = canonical dumps of the reference module system; instance-count ladder: a stateful library, N filler libraries (side by side / importing one another) for every N <= 48 (thorough 128) and a last library importing the stateful one must see the state the program changed; every transition compares the operation and {} probes (internals must be unbound, the library must not see the importer's g, one shared instance)", configs().len(), OPS.len(), PROBES.len()),
             bounds: json!({"depth": depth, "per_configuration": per_cfg}),
             assumptions: vec!["reference module system: one instance per library per program, library environments see only their imports and definitions".into()],
             wall_s: ctx.elapsed(),
@@ -394,6 +447,11 @@ pub fn run(ctx: &Ctx) -> i32 {
 }
 
 pub fn replay(p: &serde_json::Value) -> bool {
+    if p["kind"] == "instance-ladder" {
+        let r = run_instance_ladder_case(p["n"].as_u64().unwrap() as usize, p["chain"].as_bool().unwrap());
+        println!("{:?}", r);
+        return r.is_err();
+    }
     let ci = p["config"].as_u64().unwrap_or(0) as usize;
     let h: Vec<u16> = p["history"].as_array().unwrap().iter().map(|x| x.as_u64().unwrap() as u16).collect();
     let sys = Sys::new(ci);
